@@ -571,6 +571,7 @@ mod blocking {
             }
         }
         let server_vals = |k: usize, path: &str| obj(zbus::block_on(generated::prop_values(&os, k, path)).expect("prop_values"));
+        let mut lost_signals = 0u32;
         for _ in 0..rounds {
             for r in tree["regs"].as_array().unwrap() {
                 let k = r["iface"].as_u64().unwrap() as usize;
@@ -629,13 +630,19 @@ mod blocking {
                                 std::thread::spawn(move || {
                                     let _ = tx.send(it.next());
                                 });
-                                match rx.recv_timeout(std::time::Duration::from_secs(20)) {
+                                // (after the first loss the remaining waits are short, so that a build that
+                                // loses every signal still finishes well within the watchdog)
+                                let wait = if lost_signals == 0 { 20 } else { 2 };
+                                match rx.recv_timeout(std::time::Duration::from_secs(wait)) {
                                     Ok(Some(x)) => items.push(match x {
                                         Ok(a) => json!({"ok": true, "args": a, "msg": ""}),
                                         Err(e) => json!({"ok": false, "args": [], "msg": e}),
                                     }),
                                     Ok(None) => {}
-                                    Err(_) => note = "no signal within 20 s".into(),
+                                    Err(_) => {
+                                        lost_signals += 1;
+                                        note = format!("no signal within {wait} s");
+                                    }
                                 }
                             }
                         }
